@@ -15,12 +15,17 @@ gen/run:  findwalks, mean_first_passage_time, diffusion_efficiency, pagerank_cen
           copies) and seeded random graphs.
 validate: spec/Trace_RandomWalk.tla judges every record (one record per real call).
 
+          findwalks also in the regimes of SCALE (scale_jobs: 9..100 nodes, walk counts beyond 2^31,
+          2^53, 2^63, 3.4e38), each returned float encoded as 24-bit mantissa / exponent / residue
+          mod 999983 (big_enc) and judged by Trace_RandomWalk!JudgeFwBig.
+
 Python only calls bctpy and encodes numbers (integers exactly, reals as round(x*10^6)).
 EXACT: findwalks; MFPT (n<=7) and PageRank (n<=5) where the spec can solve the defining
 equation by Cramer within 32 bits.
 RESIDUAL / BOUND checks only: PageRank beyond that, eigenvector centrality, subgraph centrality
 (series with remainder bound), diffusion efficiency (inverse of the observed MFPT).
 """
+import math
 import random
 
 import numpy as np
@@ -29,6 +34,7 @@ from .. import core, encode, inputs, pool
 from . import rel_common as rc
 
 TLA, CFG = "Trace_RandomWalk.tla", "Trace_RandomWalk.cfg"
+BIG_P = 999983          # RandomWalk!BigP
 KIND = {"findwalks": "findwalks", "mean_first_passage_time": "mfpt",
         "diffusion_efficiency": "ediff", "pagerank_centrality": "pagerank",
         "eigenvector_centrality_und": "eigvec", "subgraph_centrality": "subgraph"}
@@ -43,6 +49,38 @@ def real(x):
             raise ValueError("complex output")
         x = x.real
     return x.astype(float)
+
+
+def big_enc(x):
+    """a returned walk count (any magnitude) as three 32-bit integers (RandomWalk.tla, "walk counts
+    beyond 32 bits"): (m, e) with x = m * 2^e exactly below 2^24, else a 24-bit mantissa
+    (|x - m 2^e| <= 2^e / 2), and r = x mod BIG_P as an exact integer.  Pure encoding: nothing is
+    compared here.  A non-integer value cannot be encoded (-> malformed, as with encode.e_int)."""
+    x = float(x)
+    if math.isnan(x):
+        return encode.NAN, 0, 0
+    if math.isinf(x):
+        return (encode.INF if x > 0 else encode.NINF), 0, 0
+    if x != round(x):
+        raise ValueError("not an integer: %r" % x)
+    ax = abs(x)
+    if ax < 2 ** 24:
+        m, e = int(ax), 0
+    else:
+        mant, ex = math.frexp(ax)            # ax = mant * 2^ex, 0.5 <= mant < 1
+        m, e = int(round(mant * 2 ** 24)), ex - 24
+        if m == 2 ** 24:
+            m, e = 2 ** 23, e + 1
+    return (m if x >= 0 else -m), e, int(x) % BIG_P
+
+
+def big_enc_arr(a):
+    """-> three nested lists (m, e, r) of the shape of a"""
+    a = np.asarray(a, dtype=float)
+    if a.ndim == 0:
+        return big_enc(a)
+    parts = [big_enc_arr(v) for v in a]
+    return [p[0] for p in parts], [p[1] for p in parts], [p[2] for p in parts]
 
 
 def arg_dtype(fn, dtype):
@@ -62,7 +100,8 @@ def exec_job(job):
     fn = job["fn"].split(":")[0]
     A0 = np.array(job["A"], dtype=float)
     n = len(A0)
-    rec = dict(fn=job["fn"], kind=KIND[fn], n=n, A=encode.mat_int(A0), raised="", malformed="")
+    rec = dict(fn=job["fn"], kind="fwbig" if job.get("big") else KIND[fn], n=n, A=encode.mat_int(A0),
+               raised="", malformed="")
 
     def A():        # a fresh argument array per call: same values, drawn dtype / memory layout
         return rc.as_variant(A0, job.get("dtype", "float64"), job.get("layout", "C"))
@@ -94,12 +133,19 @@ def exec_job(job):
     # every field the judge may read is present, whatever happened
     blank = {"findwalks": dict(Wq=[], twalk=-1, wlq=[]), "mfpt": dict(M=[]),
              "ediff": dict(M=[], E=[], g=-1), "pagerank": dict(r=[]),
-             "eigvec": dict(v=[]), "subgraph": dict(c=[])}[rec["kind"]]
+             "eigvec": dict(v=[]), "subgraph": dict(c=[]),
+             "fwbig": dict(Wm=[], We=[], Wr=[], tw=[0, 0, 0], wlm=[], wle=[], wlr=[])}[rec["kind"]]
     rec.update(blank)
     if out is None:
         return rec
     try:
-        if fn == "findwalks":
+        if rec["kind"] == "fwbig":
+            Wq, twalk, wlq = out
+            Wq = np.asarray(Wq)
+            rec["Wm"], rec["We"], rec["Wr"] = big_enc_arr(np.moveaxis(Wq, 2, 0))      # [k][i][j]
+            rec["tw"] = list(big_enc(twalk))
+            rec["wlm"], rec["wle"], rec["wlr"] = big_enc_arr(np.asarray(wlq).ravel())
+        elif fn == "findwalks":
             Wq, twalk, wlq = out
             Wq = np.asarray(Wq)
             rec["Wq"] = [encode.mat_int(Wq[:, :, q]) for q in range(Wq.shape[2])]
@@ -227,6 +273,70 @@ def weightings(rng, edges, k):
     return [[1] * m, [2] * m] + [[rng.choice([1, 2]) for _ in range(m)] for _ in range(k - 2)]
 
 
+def clique_path(c, L, joined):
+    """a clique on c nodes and a path on L further nodes (hanging off clique node c-1 if joined)"""
+    E = complete(c) + [(c + i, c + i + 1) for i in range(L - 1)]
+    if joined and L:
+        E.append((c - 1, c))
+    return c + L, E
+
+
+def circulant(n, offsets):
+    """arcs i -> i+o (mod n): a regular digraph (a graph if the offsets are closed under negation)"""
+    return [(i, (i + o) % n) for i in range(n) for o in offsets]
+
+
+def scale_jobs(rng, q):
+    """findwalks in the regimes of SCALE that the small inputs never reach: the largest walk count
+    (about maxdegree^n) passes 2^31 (n >= 10 dense), 2^53 (n >= 14), 2^63 (K17, random n >= 22) and
+    the float32 range 3.4e38 (K28, clique+path).  Families: dense random (di)graphs, complete graphs,
+    complete bipartite K(a,a), long cycles, circulant digraphs (all regular: closed-form row sums),
+    clique + path (huge and tiny counts in one call).  Judged by Trace_RandomWalk!JudgeFwBig on an
+    encoding that never hands TLC more than 24 bits of a number."""
+    fam = []
+    reps = 1 if q else 2
+
+    def dense(lo, hi):
+        n = rng.randint(lo, hi)
+        isund = rng.random() < 0.5
+        A = inputs.rand_graph(rng, n, rng.choice([0.5, 0.7, 0.9]), und=isund)
+        if rng.random() < 0.3:
+            A[rng.randrange(n), rng.randrange(n)] = 1                  # maybe a self-loop
+        fam.append(("dense-%s%d" % ("und" if isund else "dir", n), A))
+
+    def graph(name, n, edges, isund=True):
+        fam.append((name, inputs.mat_from_edges(n, edges, und=isund)))
+
+    for lo, hi in reps * ([(9, 13), (14, 16), (17, 21), (22, 26)] + ([] if q else [(9, 16), (17, 26), (27, 33), (34, 40)])):
+        dense(lo, hi)
+    for lo, hi in reps * ([(17, 22), (28, 32)] + ([] if q else [(9, 16), (33, 40)])):
+        n = rng.randint(lo, hi)
+        graph("K%d" % n, n, complete(n))
+    for lo, hi in reps * ([(9, 13)] + ([] if q else [(5, 8), (14, 20)])):
+        a = rng.randint(lo, hi)
+        graph("K%d,%d" % (a, a), 2 * a, bipartite(a, a))
+    for lo, hi in reps * ([(34, 40)] + ([] if q else [(41, 65), (66, 72), (73, 100)])):
+        n = rng.randint(lo, hi)
+        graph("C%d" % n, n, cycle(n))
+    for lo, hi in reps * ([(18, 24)] + ([] if q else [(10, 17), (25, 36)])):
+        n = rng.randint(lo, hi)
+        offs = rng.sample(range(1, n), rng.randint(3, n // 2))
+        graph("circulant%d/%d" % (n, len(offs)), n, circulant(n, offs), isund=False)
+    for (clo, chi), (nlo, nhi) in reps * ([((12, 16), (40, 48))] + ([] if q else [((5, 9), (24, 40)), ((14, 20), (50, 60))])):
+        c, n = rng.randint(clo, chi), rng.randint(nlo, nhi)
+        joined = rng.random() < 0.7
+        nn, E = clique_path(c, n - c, joined)
+        graph("clique%d+path%d%s" % (c, n - c, "" if joined else "-apart"), nn, E)
+    out = []
+    for name, A in fam:
+        if rng.random() < 0.6:                                          # shuffled numbering
+            perm = list(range(len(A)))
+            rng.shuffle(perm)
+            A = A[np.ix_(perm, perm)]
+        out.append(J("findwalks:scale", A, "scale:" + name, draw(rng, A, 0.4), big=1))
+    return out
+
+
 def build_jobs(ctx):
     rng = random.Random(ctx.seed)
     q = ctx.quick
@@ -345,6 +455,8 @@ def build_jobs(ctx):
         if rng.random() < 0.15:
             A[0, 0] = 1                                      # a self-loop
         jobs += spectral_jobs(A, src, rng, p_plain=0.4)
+    # ---- findwalks in the other regimes of scale (own RNG stream: the draws above stay as they were)
+    jobs += scale_jobs(random.Random(ctx.seed * 1000003 + 18), q)
     return jobs
 
 
@@ -394,10 +506,16 @@ def run(ctx):
                 "and memory layout (Fortran, transposed, window, strided); structured supports "
                 "(paths, cycles, stars, complete, bipartite, caterpillars, rings of cliques, equal/unequal components) "
                 "for all three groups; falff non-uniform / explicit uniform / concentrated, as float or int array; all "
-                "choices drawn from the seeded RNG.  non-trivial = distinct (routine, input) "
+                "choices drawn from the seeded RNG.  SCALE regimes (findwalks:scale, %d inputs, 9..%d nodes; "
+                "largest walk count beyond 2^31 / 2^53 / 2^63 / 3.4e38): dense random (di)graphs, complete graphs, "
+                "K(a,a), long cycles, circulant digraphs, clique + path, shuffled numbering, all argument "
+                "dtypes/layouts - judged on a mantissa/exponent/residue encoding (non-negative; exact below 2^24 "
+                "and, mod 999983, below 2^53; slice recurrence, regular-graph row sums and totals to 24 bits).  "
+                "non-trivial = distinct (routine, input) "
                 "with n >= 3 and at least one connection that the specification judged (not skipped)"
-                % (("250 sampled", "up to 6 (n=4) / all (n<=3)", "up to 8", "60 sampled", "80 sampled", "150 sampled")
-                   if ctx.quick else ("all", "all", "all", "all 728", "all 1606", "all 1024")))
+                % ((("250 sampled", "up to 6 (n=4) / all (n<=3)", "up to 8", "60 sampled", "80 sampled", "150 sampled")
+                    if ctx.quick else ("all", "all", "all", "all 728", "all 1606", "all 1024"))
+                   + (sum(1 for j in jobs if j.get("big")), max([len(j["A"]) for j in jobs if j.get("big")] or [0]))))
     for kind in ("findwalks", "mfpt", "ediff", "pagerank", "eigvec", "subgraph"):
         for j, r in zip(jobs, recs):
             if r.get("kind") == kind and r["n"] == 4 and j["src"].startswith("model"):
@@ -414,7 +532,11 @@ def run(ctx):
         "BOUND checks: eigenvector centrality (parallelism by cross products at 1e-4, eigenvalue inside "
         "Collatz-Wielandt bounds of every component, Perron positivity where decidable at 1e-6), subgraph "
         "centrality (exact partial sums of the exponential series + rigorous remainder; only for max strength "
-        "<= 4, tolerance <= 3e-4).  None of the residual/bound clauses is an accuracy claim on ill-conditioned input.")
+        "<= 4, tolerance <= 3e-4).  SCALE regime of findwalks (9..127 nodes, counts up to 1e80): every returned float "
+        "enters TLC as a 24-bit mantissa, an exponent and its residue mod 999983; judged are non-negativity, exact "
+        "equality with the power clipped at 2^24, equality mod 999983 with the power for every value below 2^53, the "
+        "recurrence Wq[k+1] = Wq[k].A between the returned slices in interval arithmetic (relative ~1e-5), row/column "
+        "sums = degree^k on regular graphs, and the totals.  None of the residual/bound clauses is an accuracy claim on ill-conditioned input.")
     ctx.assumptions += [
         "TLC evaluates the L0 definitions correctly; determinants by Laplace expansion, lcm, long division (BctRational)",
         "observed reals enter as round(x*1e6); a budget of one whole unit per observed value covers the rounding "
@@ -424,6 +546,9 @@ def run(ctx):
         "the statement's MFPT equation is demanded for i != j only; the code's zero diagonal is neither required nor rejected",
         "findwalks: two slice conventions are accepted (slice q = walks of q+1 steps as in BCT's findwalks.m, or slice "
         "q = walks of q steps as the docstring says, slice 0 then unconstrained); only 0/1 input is judged",
+        "findwalks beyond n = 8: a returned float below 2^53 is taken to claim the exact count (float64 sums of "
+        "non-negative integers are exact there), above it only a relative accuracy of about 3 (indegree+1) 2^-23 per "
+        "slice step is demanded; equality mod the prime 999983 misses a wrong value with probability 1e-6 per entry",
         "eigenvector/subgraph centrality are judged on symmetric non-negative integer matrices only; integer weights <= 3",
         "closed-form constants (cosh 1, (e^2+2/e)/3, ...) used by the constant-level lemmas of MC_RandomWalk.tla were "
         "computed outside TLC",
